@@ -1,7 +1,7 @@
 (* C08 — Detector error model format: exact round trip, total parser, faithful flatten. *)
 From Coq Require Import List NArith Arith.
 Import ListNotations.
-Require Tag.
+Require Tag DemTargets.
 Require Import Dec DemFlat.
 
 (* flattening with a running detector offset threaded through nested repeat blocks (flattened_helper /
@@ -19,7 +19,16 @@ Proof. exact Tag.tag_output_bounded. Qed.
 (* detector / observable ids and repeat counts *)
 Theorem C08_decimal_roundtrip : forall n rest, no_digit_head rest -> read_dec (print_dec n ++ rest) = Some (n, rest).
 Proof. exact read_print_dec. Qed.
-Print Assumptions C08_flatten_is_naive_execution. Print Assumptions C08_tag_roundtrip.
+(* target lists of error instructions: operator<<(DemInstruction) then read_arbitrary_dem_targets_into (read_until_next_line_arg +
+   read_uint60_t with the limit tested after every digit) returns the list, for every list of targets below 2^60, any length *)
+Theorem C08_target_list_roundtrip :
+  forall ts, Forall DemTargets.dwf ts -> forall fuel rest, length ts < fuel ->
+  DemTargets.read_dtargets fuel (DemTargets.write_dtargets ts ++ 10%N :: rest) = DemTargets.DOk ts (10%N :: rest).
+Proof. exact DemTargets.dtargets_roundtrip. Qed.
+Theorem C08_uint60_reader_accepts_all_below_limit :
+  forall n rest, (n < DemTargets.LIM60)%N -> no_digit_head rest -> DemTargets.read_u60 (print_dec n ++ rest) = Some (n, rest).
+Proof. exact DemTargets.read_u60_print. Qed.
+Print Assumptions C08_target_list_roundtrip. Print Assumptions C08_flatten_is_naive_execution. Print Assumptions C08_tag_roundtrip.
 
 Example C08_nonvacuous :
   let m := [IErr 1 [TD 0; TL 1]; IShift 3; IRep 2 [IErr 2 [TD 0]; IShift 1; IRep 2 [IDet [TD 1]]]] in
